@@ -20,7 +20,7 @@ CHECKS = {
  "C08": dict(cat="exploration", tech="invariant monitor over real builds: references (exec targets, change_profile, stack components, drop-ins) resolved against blocks defined in the same output",
    text="For every distribution x normal/full (quick) or all 180 configurations (thorough, exhaustive) the real build output is scanned: each named transition target, change_profile target, stack component and AppArmorProfile= must resolve to a block defined in that same output (or the upstream policy it overlays, or a shipped variable); directive, flags-manifest and overwrite-list names are resolved against the source tree. Recorded data defects are listed in known_findings.json by (file, target).",
    note="Trusted: scanner's block/target extraction; Cx targets resolve as children of the current profile (checked against the reference parser's x-table naming).", ref="5 C08"),
- "C02": dict(cat="exploration", tech="history monitor: manifests (sha256 of every output path) of repeated real prebuild runs under different build-directory histories; in-process sequences in fresh worker processes",
+ "C02": dict(cat="exploration", tech="history monitor: manifests (sha256 of every output path) of repeated real prebuild runs under different build-directory histories; in-process sequences in fresh worker processes; builds with and without generated hosts naming the same profiles; the same builds under the Go race detector",
    text="Each chosen configuration is built twice from clean directories, once on a directory left by another configuration plus junk, and 6-8 more times when it contains multi-argument stack/exec directives; all manifests must be equal. At API level every file with a generating directive is run 20x in one process and, alone in a fresh process vs inside seed-drawn sequences of other files, must produce the same text. A deliberately non-deterministic directive registered only in the worker must be seen in every run.",
    note="Trusted: sha256; the worker calls directive.Run of /repo's working tree. Map-order defects are probabilistic: repetitions bound the miss probability, they do not remove it.", ref="5 C02"),
  "C05": dict(cat="exploration", tech="differential monitor across the three mode builds of the same (distribution, ABI, version, full) + generated headers through the real builders",
@@ -41,10 +41,10 @@ CHECKS = {
  "C09": dict(cat="exploration", tech="round-trip monitor in the worker: generated valid rules/blocks/files printed and re-parsed by the real library, intent model for the first parse, interleaved file parses for carried state",
    text="5000 / 150000 generated valid rules of all kinds (validity: Validate() and, for AppArmor-3 kinds, acceptance of the harness's canonical rendering by apparmor_parser), 500 / 15000 blocks after Merge+Sort+Format and 500 / 15000 profile files: parse(canonical text) must equal the generator's intent field by field, parse(print(r)) must equal r and print again the same text; the same rules are parsed again interleaved with profile-file parses in one process and must give the same result.",
    note="Trusted: the generator's canonical printer (calibrated by the reference parser). Trailing special comments (file_inherit, no new privs, optional:) are not generated.", ref="5 C09"),
- "C11": dict(cat="exploration", tech="algebraic-law monitor on Rule.Compare / Rules.Sort over generated triples, permuted lists and the complete matrix of shipped includes",
+ "C11": dict(cat="exploration", tech="algebraic-law monitor on Rule.Compare / Rules.Sort over generated triples, permuted lists and the complete matrix of shipped includes; a slice of the Sort calls in a worker built with the Go race detector",
    text="20000 / 600000 same-kind triples (strata: file rules with known / unknown / mixed prefixes, near-duplicates differing in one letter's case, one byte or one flag) checked for antisymmetry, transitivity and equal-only-if-identical; 2000 / 60000 lists x 8 permutations for idempotent, order-independent Sort; all ~400 shipped abstractions as include rules compared pairwise (complete matrix, consistency with a linear order).",
    note="Trusted: rule identity = canonical text with set-valued fields sorted. Paths containing '=' are outside this domain (finding C09/equals-in-path).", ref="5 C11"),
- "C10": dict(cat="translation_validation", tech="translation validation of Rules.Merge: independent denotation of input and merged list + both texts compiled by the reference parser (bytes, then automata equivalence)",
+ "C10": dict(cat="translation_validation", tech="translation validation of Rules.Merge: independent denotation of input and merged list + both texts compiled by the reference parser (bytes, then automata equivalence); a slice of the Merge calls in a worker built with the Go race detector",
    text="3000 / 120000 lists of valid rules (random, one kind, near-duplicates differing in case/one byte/one flag, same subject with different or empty set fields, a signal grid) are merged by the real library in the worker; the atomic (qualifier, subject, permission) facts of input and output must be equal, Merge must be idempotent, and for lists of AppArmor-3 kinds the printed input and output are compiled by apparmor_parser: equal bytes => equal, else equivalence of every dumped automaton plus capability/network/rlimit dump lines; lists with deny rules are compiled a second time under blanket allow rules. Disagreement between the two oracles is inconclusive.",
    note="Trusted: the denotation in vlib/c10.py (empty list = every value of a finite domain); apparmor_parser 3.0.8 compiled output is canonical. programs = lists compiled as pairs, disagreements_checked = pairs settled by automata.", ref="5 C10"),
  "C13": dict(cat="exploration", tech="differential monitor: Parse+Resolve of the real library in CPU/memory-limited worker processes vs apparmor_parser -D expanded-variables on the same generated preamble",
@@ -53,7 +53,7 @@ CHECKS = {
  "C12": dict(cat="translation_validation", tech="translation validation: text printed by the real library vs the harness's canonical rendering of the same fields, both compiled by apparmor_parser (bytes, then automata equivalence)",
    text="Texts printed by the real library for single rules of the 14 AppArmor-3 kinds, blocks after Merge+Sort+Format, rules built from generated log records and the expansions of every distinct shipped dbus/exec directive are (a) shown to apparmor_parser for acceptance and (b) compiled against the harness's own plain rendering of the same rule fields: equal bytes => same meaning, else equivalence of every dumped automaton plus capability/network/rlimit dump lines. A rejection is only excused (out of domain) when the canonical rendering of the same fields is rejected too and the fields were generated, not produced by the tool itself.",
    note="Trusted: the canonical printer in vlib/rulegen.py, apparmor_parser 3.0.8. programs = text pairs judged, disagreements_checked = pairs whose two texts differ beyond white space (decided by compilation).", ref="5 C12"),
- "C14": dict(cat="exploration", tech="offline history checker: uniquely tagged records written to generated log files, the real aa-log binary run in every mode, reported events matched back to input records",
+ "C14": dict(cat="exploration", tech="offline history checker: uniquely tagged records written to generated log files, the real aa-log binary run in every mode, reported events matched back to input records; journald lines through -f FILE and through a stub journalctl command; a slice of the runs on a binary built with the Go race detector",
    text="300 / 6000 generated log files (audit, syslog and journald JSON framings; records of every class mixed with STATUS records, foreign, blank, garbled and truncated lines, journald binary/boot entries, repeats up to timestamp and pid, ALLOWED/DENIED twins, noise paths, extra keys; at most one hostile trigger per file: 64 KiB+-1 / 1 MiB line, invalid UTF-8, no final newline) x {default, -R, -r} x {no filter, profile, prefix, no match}: every expected record reported exactly once and in input order, nothing else reported, exit status 0, identical bytes on a second run.",
    note="Trusted: the record model (what is a repeat, what is noise: only unmistakable noise paths are generated). Truncated records may or may not be shown.", ref="5 C14"),
  "C15": dict(cat="exploration", tech="field-level monitor on logs.New in the worker: generated kernel-style records (encoder keeps the field values) vs the maps the real library returns",
